@@ -152,8 +152,10 @@ func (c *cache) Del(key []byte) {
 // GetStats - get counters
 func (c *cache) Stats() Stats {
 	s := Stats{}
+	c.lock.Lock()
 	s.Count = len(c.items)
 	s.Size = int(c.size)
+	c.lock.Unlock()
 	s.Hit = int(atomic.LoadInt32(&c.hit))
 	s.Miss = int(atomic.LoadInt32(&c.miss))
 	return s
